@@ -1,9 +1,33 @@
-(* C13 — placeholder until Proofs/C13Main.v lands: the pin on the fallbacks. *)
+(* C13 — dot-bracket generation survives every solver configuration and solver fault.  Property theorems only. *)
 From Coq Require Import String Ascii ZArith List Bool Arith.
-From RV Require Import Base.Val Gen.Common Model.Bpseq Model.Milp.
+From RV Require Import Base.Val Gen.Common Model.Bpseq Model.Spec2D Model.Milp Proofs.C13Main.
 Import ListNotations.
 
 (* pin: every fallback `return` of convert_to_dot_bracket evaluates to the FCFS dot-bracket *)
 Lemma C13_pin_fallbacks : fallback_returns_fcfs = true /\ fallback_count = 3.
 Proof. split; reflexivity. Qed.
 Print Assumptions C13_pin_fallbacks.
+
+(* for every configuration (no solver / a solver) and every behaviour (raises, any non-optimal status, optimal with a
+   feasible point): a result is returned and it is a lossless encoding.  Guards: the structure needs at most 30 levels. *)
+Theorem C13_total_lossless : forall ans b,
+    valid b = true -> (exists s0, fcfs b = Ok s0) -> max_order (regions b) <= length brackets ->
+    (forall x, ans = Some (Optimal x) -> feasible (regions b) x = true) ->
+    exists s, convert ans b = Ok s /\ lossless b s = true.
+Proof. exact convert_lossless. Qed.
+Print Assumptions C13_total_lossless.
+
+(* whenever the solver cannot deliver an optimal solution the result is the first-come-first-served encoding *)
+Theorem C13_fallback_is_fcfs : forall ans b, is_fallback ans = true ->
+    (ans = None \/ has_conflict (adj_db (regions b)) (length (regions b)) = true) -> convert ans b = fcfs b.
+Proof. exact fallback_is_fcfs. Qed.
+Print Assumptions C13_fallback_is_fcfs.
+
+(* non-vacuity: a kissing pattern under every fault kind *)
+Example C13_nonvacuous :
+  let b := map (fun x => {| idx := fst x; nt := "A"%char; pair := snd x |})
+               [(1,7);(2,6);(3,0);(4,9);(5,10);(6,2);(7,1);(8,0);(9,4);(10,5)] in
+  valid b = true /\ has_conflict (adj_db (regions b)) (length (regions b)) = true /\
+  convert None b = fcfs b /\ convert (Some SolverRaises) b = fcfs b /\ convert (Some NotOptimal) b = fcfs b /\
+  exists s, fcfs b = Ok s /\ lossless b s = true.
+Proof. vm_compute. repeat split; try reflexivity. eexists. split; reflexivity. Qed.
